@@ -196,10 +196,11 @@ Proof. unfold offs. cbn [flat_map adv shmf off]. reflexivity. Qed.
 
 Lemma rstep_keeps l l' (P : slice -> Prop) : sliceP P -> rstep l l' ->
   (forall x, rown l' x = rown l x) /\ (Forall P (rslots l) -> Forall P (rslots l')) /\ (leases_ok l -> leases_ok l')
-  /\ (Forall P (slices l) -> Forall P (slices l')).
+  /\ (Forall P (slices l) -> Forall P (slices l')) /\ (rwp l -> rwp l').
 Proof.
   intros HP H. destruct H as [l s r k Es|l l' Hn|l z|l|l s r le Es Hc H1 H2 H3].
-  - split; [|split; [|split; [|cbn [slices set_front set_slices]; rewrite Es; cbn [tl]; intros HF; inversion HF; subst; constructor; [apply HP; assumption|assumption]]]].
+  - split; [|split; [|split; [|split; [cbn [slices set_front set_slices]; rewrite Es; cbn [tl]; intros HF; inversion HF; subst; constructor; [apply HP; assumption|assumption]
+      |unfold rwp; cbn [slices wpos set_front set_slices]; rewrite Es; cbn [tl length]; intros [Hx|Hx]; [discriminate|right; exact Hx]]]]].
     + intros x. unfold rown. cbn [slices set_front set_slices pinned recycled]. rewrite Es. cbn [tl]. rewrite offs_adv. reflexivity.
     + unfold rslots. cbn [slices set_front set_slices pinned recycled]. rewrite Es. cbn [tl app].
       intros HF. inversion HF; subst. constructor; [apply HP; assumption|assumption].
@@ -208,7 +209,11 @@ Proof.
         cbn [slices set_front set_slices]. rewrite Es. auto.
       * right. exact Hp.
   - unfold read_next in Hn. destruct (slices l) as [|s r] eqn:Es; [discriminate|]. injection Hn as <-.
-    split; [|split; [|split; [|intros HF; inversion HF; subst; destruct (shmf s); [destruct (curp l)|]; assumption]]].
+    split; [|split; [|split; [|split; [intros HF; inversion HF; subst; destruct (shmf s); [destruct (curp l)|]; assumption|]]]].
+    4: { unfold rwp. rewrite Es. intros [Hnil|Hw]; [discriminate|]. replace (length (s :: r) - 1) with (length r) in Hw by (cbn [length]; lia).
+         assert (Hsl : forall X : lbuf, slices X = r -> wpos X = wptr_pop (wpos l) -> slices X = [] \/ wpos X = WAt (length (slices X) - 1)).
+         { intros X HX HW. rewrite HX, HW, Hw. destruct r as [|a r']; [left; reflexivity|right]. cbn [length wptr_pop]. f_equal. lia. }
+         destruct (shmf s); [destruct (curp l)|]; apply Hsl; reflexivity. }
     + intros x. unfold rown. destruct (shmf s) eqn:E; [destruct (curp l)|];
         cbn [slices pinned recycled set_curp set_pinned set_recycled set_wpos set_slices]; rewrite ?offs_app, ?cnt_app, ?Es;
         rewrite ?(offs_cons_shm s r E), ?(offs_cons_shm s [] E), ?(offs_cons_heap s r E), ?cnt_cons, ?cnt_nil; try lia;
@@ -226,10 +231,10 @@ Proof.
         rewrite (offs_cons_shm s [] E1). left. exact E2.
       * destruct (shmf s); [destruct (curp l)|]; cbn [pinned set_curp set_pinned set_recycled set_wpos set_slices]; auto.
         rewrite offs_app. apply in_or_app. left. exact Hp.
-  - split; [intros x; reflexivity|]. split; [auto|]. split; [|auto]. intros HL le Hin. exact (HL le Hin).
-  - split; [intros x; reflexivity|]. split; [auto|]. split; [|auto]. intros HL le Hin. destruct (HL le Hin) as [Hh Hb]. split; [|exact Hb].
+  - split; [intros x; reflexivity|]. split; [auto|]. split; [|split; auto]. intros HL le Hin. exact (HL le Hin).
+  - split; [intros x; reflexivity|]. split; [auto|]. split; [|split; auto]. intros HL le Hin. destruct (HL le Hin) as [Hh Hb]. split; [|exact Hb].
     intros Hs. destruct (Hh Hs) as [[Hc X]|Hp]; [left; split; [reflexivity|exact X]|right; exact Hp].
-  - split; [intros x; reflexivity|]. split; [auto|]. split; [|auto]. intros HL le0 Hin. cbn [leases set_leases] in Hin.
+  - split; [intros x; reflexivity|]. split; [auto|]. split; [|split; auto]. intros HL le0 Hin. cbn [leases set_leases] in Hin.
     apply in_app_or in Hin. destruct Hin as [Hin|[<-|[]]].
     + destruct (HL le0 Hin) as [Hh Hb]. split; [|exact Hb]. exact Hh.
     + split; [|exact H3]. intros Hs. left. split; [exact Hc|]. exists s, r. rewrite <- H1, <- H2. auto.
@@ -237,11 +242,11 @@ Qed.
 
 Lemma revolve_keeps l l' (P : slice -> Prop) : sliceP P -> revolve l l' ->
   (forall x, rown l' x = rown l x) /\ (Forall P (rslots l) -> Forall P (rslots l')) /\ (leases_ok l -> leases_ok l')
-  /\ (Forall P (slices l) -> Forall P (slices l')).
+  /\ (Forall P (slices l) -> Forall P (slices l')) /\ (rwp l -> rwp l').
 Proof.
-  intros HP H. induction H as [l|l l1 l2 Hs _ IH]; [auto|].
-  destruct (rstep_keeps l l1 P HP Hs) as [A1 [A2 [A3 A4]]]. destruct IH as [B1 [B2 [B3 B4]]].
-  split; [intros x; rewrite B1; apply A1|]. split; [auto|]. split; auto.
+  intros HP H. induction H as [l|l l1 l2 Hs _ IH]; [repeat split; auto|].
+  destruct (rstep_keeps l l1 P HP Hs) as [A1 [A2 [A3 [A4 A5]]]]. destruct IH as [B1 [B2 [B3 [B4 B5]]]].
+  split; [intros x; rewrite B1; apply A1|]. split; [auto|]. split; [auto|]. split; auto.
 Qed.
 
 End Revolve.
@@ -266,7 +271,7 @@ Proof. intros Hf. rewrite !content_bodies. apply bodies_frame. exact Hf. Qed.
 
 Lemma WB_frame m m' l : (forall x, In x (offs (slices l)) -> slot_at m' x = slot_at m x) -> WB m l -> WB m' l.
 Proof.
-  intros Hf [W1 W2 W3 W4 W5 W6]. constructor; auto.
+  intros Hf [W1 W2 W3 W4 W5 W6 W7]. constructor; auto.
   - apply (wslices_frame m m'); assumption.
   - rewrite (content_frame m m' l Hf). exact W3.
 Qed.
@@ -526,7 +531,7 @@ Lemma Inv_flush_fallback s sp idss m1 :
       {| pw := []; infl := infl sp ++ pw sp; av := av sp |} idss.
 Proof.
   intros [I1 I2 I3 I4 I5 I6 I7 I8 I9 [I10a I10b] I11 I12 I13] Hlen Hfr Hfree Hcls Hok1 Hsd Hcs l2.
-  pose proof I2 as [W1 W2 W3 W4 W5 W6].
+  pose proof I2 as [W1 W2 W3 W4 W5 W6 W7].
   assert (Hfrees : frees m1 = frees (mem s)) by (unfold frees; rewrite Hfree; reflexivity).
   assert (Hund : underlying m1 (snd s) = pw sp).
   { unfold underlying. destruct (wpos (snd s)) as [|i|]; [| |contradiction].
@@ -565,7 +570,7 @@ Qed.
 Lemma Inv_flush s sp idss : Inv s sp idss ->
   exists s' idss', flush s = Ok s' /\ Inv s' {| pw := []; infl := infl sp ++ pw sp; av := av sp |} idss'.
 Proof.
-  intros I. pose proof I as [I1 I2 I3 I4 I5 I6 I7 I8 I9 [I10a I10b] I11 I12 I13]. pose proof I2 as [W1 W2 W3 W4 W5 W6].
+  intros I. pose proof I as [I1 I2 I3 I4 I5 I6 I7 I8 I9 [I10a I10b] I11 I12 I13]. pose proof I2 as [W1 W2 W3 W4 W5 W6 W7].
   unfold flush. destruct (Z.eqb_spec (len (snd s)) 0) as [Hz|Hnz].
   - exists s, idss. split; [reflexivity|].
     assert (Hpw : pw sp = []) by (apply length_zero_iff_nil; rewrite W3, I3 in Hz; lia).
@@ -675,7 +680,7 @@ Lemma reader_step {A} s sp idss (f : shm -> lbuf -> outcome (A * lbuf)) (g : A -
 Proof.
   intros [I1 I2 I3 I4 I5 I6 I7 I8 I9 [I10a I10b] I11 I12 I13] Hf Hrev Hwf Hc Hshm.
   unfold rd_op. rewrite Hf. cbn [bind]. unfold settle. eexists. split; [reflexivity|].
-  destruct (revolve_keeps (mem s) (rcv s) l2 (recyclable (mem s)) (fun s0 k H => H) Hrev) as [K1 [K2 [K3 _]]].
+  destruct (revolve_keeps (mem s) (rcv s) l2 (recyclable (mem s)) (fun s0 k H => H) Hrev) as [K1 [K2 [K3 [K4 K5]]]].
   assert (Hrs : Forall (recyclable (mem s)) (rslots l2)).
   { apply K2. unfold rslots. rewrite I7, app_nil_r. exact I9. }
   unfold rslots in Hrs. apply Forall_app in Hrs. destruct Hrs as [Hr1 Hr23]. apply Forall_app in Hr23. destruct Hr23 as [Hr2 Hr3].
@@ -897,7 +902,7 @@ Proof. destruct s. auto. Qed.
 
 Lemma revolve_allshm m l l' : revolve m l l' -> allshm (slices l) -> allshm (slices l').
 Proof.
-  intros H. destruct (revolve_keeps m l l' (fun x => shmf x = true) (fun s0 k E => E) H) as [_ [_ [_ K]]]. exact K.
+  intros H. destruct (revolve_keeps m l l' (fun x => shmf x = true) (fun s0 k E => E) H) as [_ [_ [_ [K _]]]]. exact K.
 Qed.
 
 (* the state ReleaseReadAndReuse leaves in the send position *)
